@@ -81,13 +81,18 @@ def run_compile_case(case: dict) -> dict:
     d = tempfile.mkdtemp(prefix="vf-cli-", dir=os.environ.get("VERIF_SCRATCH_BASE") or tempfile.gettempdir())
     try:
         src = case["src"]
-        with open(os.path.join(d, "in.exps"), "w", encoding="utf-8") as fh:
-            fh.write(src)
+        if not case.get("no_source_file"):
+            with open(os.path.join(d, "in.exps"), "w", encoding="utf-8") as fh:
+                fh.write(src)
         with open(os.path.join(d, "settings.json"), "w") as fh:
-            json.dump({"settings": SETTINGS}, fh)
+            if "settings_text" in case:
+                fh.write(case["settings_text"])
+            else:
+                json.dump(case.get("settings_doc", {"settings": SETTINGS}), fh)
         rc, out, err = cli("explorerscript.cli.compile", ["in.exps", "--settings", "settings.json"], d)
         api = drive.compile_text(src, os.path.join(d, "in.exps"))
-        rec = {"kind": "compile", "src": src, "compileExit": rc, "apiStatus": api["status"], "docParsed": False, "hasSettings": False, "doc": [],
+        rec = {"kind": "compile", "src": src, "compileExit": rc, "apiStatus": api["status"], "inputOk": case.get("input_ok", True), "why": case.get("why", ""),
+               "docParsed": False, "hasSettings": False, "doc": [],
                "api": api["ops"], "apiKinds": [i["kind"] for i in api["infos"]], "decompileExit": -1, "stderr": err[-300:], "text": "", "behaviour": None}
         doc = None
         try:
@@ -95,7 +100,7 @@ def run_compile_case(case: dict) -> dict:
             rec["docParsed"] = isinstance(doc, dict)
         except Exception:
             pass
-        if rec["docParsed"] and api["status"] == "ok":
+        if rec["docParsed"] and api["status"] == "ok" and rec["inputOk"]:
             rec["hasSettings"] = "settings" in doc and "routines" in doc
             rec["doc"] = doc_view(doc)
             with open(os.path.join(d, "ssb.json"), "w") as fh:
@@ -124,13 +129,18 @@ def run_compile_case(case: dict) -> dict:
 def run_decompile_case(case: dict) -> dict:
     d = tempfile.mkdtemp(prefix="vf-cli-", dir=os.environ.get("VERIF_SCRATCH_BASE") or tempfile.gettempdir())
     try:
-        doc = {"settings": SETTINGS, "routines": case["routines"]}
-        with open(os.path.join(d, "ssb.json"), "w") as fh:
-            json.dump(doc, fh)
+        doc = case.get("doc", {"settings": SETTINGS, "routines": case.get("routines", [])})
+        if not case.get("no_file"):
+            with open(os.path.join(d, "ssb.json"), "w") as fh:
+                if "text" in case:
+                    fh.write(case["text"])
+                else:
+                    json.dump(doc, fh)
         rc, out, err = cli("explorerscript.cli.decompile", ["ssb.json"], d)
-        rec = {"kind": "decompile", "src": json.dumps(case["routines"]), "compileExit": -1, "apiStatus": "n/a", "docParsed": True, "hasSettings": True, "doc": [],
+        rec = {"kind": "decompile", "src": case.get("text") or json.dumps(doc)[:600], "compileExit": -1, "apiStatus": "n/a", "inputOk": case.get("input_ok", True), "why": case.get("why", ""),
+               "docParsed": True, "hasSettings": True, "doc": [],
                "api": [], "apiKinds": [], "decompileExit": rc, "stderr2": err[-400:], "text": out, "behaviour": None}
-        if rc == 0 and not out.lstrip().startswith(decomp.MARKER):
+        if rc == 0 and rec["inputOk"] and not out.lstrip().startswith(decomp.MARKER):
             a, infos = doc_to_recs(doc)
             c2 = drive.compile_text(out)
             rec["behaviour"] = {"a": a, "b": c2["ops"] if c2["status"] == "ok" else [], "infoA": infos, "infoB": c2["infos"] if c2["status"] == "ok" else [],
@@ -138,6 +148,35 @@ def run_decompile_case(case: dict) -> dict:
         return rec
     finally:
         shutil.rmtree(d, ignore_errors=True)
+
+
+def invalid_invocations() -> tuple[list[dict], list[dict]]:
+    """runs that must NOT exit with status 0: the settings document lacks a documented key, is no JSON, the input file is missing, the SSB
+    document lacks settings / routines or names an unknown routine or argument type"""
+    good_src = "def 0 { a(1); return; }"
+    dmc = SETTINGS["dungeon_mode_constants"]
+    comp = [{"src": good_src, "no_source_file": True, "input_ok": False, "why": "source file missing"},
+            {"src": good_src, "settings_text": "{ not json", "input_ok": False, "why": "settings file is not JSON"},
+            {"src": good_src, "settings_doc": {}, "input_ok": False, "why": "no settings key"},
+            {"src": good_src, "settings_doc": {"settings": {"dungeon_mode_constants": dmc}}, "input_ok": False, "why": "performance_progress_list_var_name missing"},
+            {"src": good_src, "settings_doc": {"settings": {"performance_progress_list_var_name": common.PPL}}, "input_ok": False, "why": "dungeon_mode_constants missing"}]
+    for k in dmc:
+        comp.append({"src": good_src, "settings_doc": {"settings": {"performance_progress_list_var_name": common.PPL, "dungeon_mode_constants": {x: y for x, y in dmc.items() if x != k}}},
+                     "input_ok": False, "why": f"dungeon mode constant {k} missing"})
+    ret = {"opcode": "Return", "params": []}
+    rt = [{"type": "GENERIC", "ops": [ret]}]
+    dec = [{"no_file": True, "input_ok": False, "why": "document file missing"},
+           {"text": "[1, 2", "input_ok": False, "why": "document is not JSON"},
+           {"doc": {"routines": rt}, "input_ok": False, "why": "document without settings"},
+           {"doc": {"settings": SETTINGS}, "input_ok": False, "why": "document without routines"},
+           {"doc": {"settings": {"performance_progress_list_var_name": common.PPL}, "routines": rt}, "input_ok": False, "why": "document without dungeon mode constants"},
+           {"doc": {"settings": SETTINGS, "routines": [{"type": "NO_SUCH_TYPE", "ops": [ret]}]}, "input_ok": False, "why": "unknown routine type"},
+           {"doc": {"settings": SETTINGS, "routines": [{"type": "GENERIC", "ops": [{"opcode": "x", "params": [{"type": "NO_SUCH_ARG", "value": 1}]}, ret]}]}, "input_ok": False, "why": "unknown argument type"},
+           {"doc": {"settings": SETTINGS, "routines": [{"type": "COROUTINE", "ops": [ret]}]}, "input_ok": False, "why": "coroutine without name"}]
+    for k in dmc:
+        dec.append({"doc": {"settings": {"performance_progress_list_var_name": common.PPL, "dungeon_mode_constants": {x: y for x, y in dmc.items() if x != k}}, "routines": rt},
+                    "input_ok": False, "why": f"document: dungeon mode constant {k} missing"})
+    return comp, dec
 
 
 def documented_docs() -> list[dict]:
@@ -173,14 +212,15 @@ def main() -> int:
     srcs = fam[:: (160 if not thorough else 8)] + [gen_exps.random_program(rng, 2) for _ in range(60 if not thorough else 2000)]
     srcs += ["def 0 { a(); return; }", "coro A { a(); return; }\ncoro B { b(); end; }", "def 0 { if ($V == 1) { a(); } b(); return; }",
              "def 0 for actor 3 { a(); hold; }\ndef 1 for object OBJ_X { while ($V == 1) { b(); } return; }", "def 0 { break; }", "def 0 { x(", "def 0 { jump @nowhere; }", ""]
-    crecs = pmap(run_compile_case, [{"src": s} for s in srcs], limit=120.0, chunk=2)
-    drecs = pmap(run_decompile_case, documented_docs(), limit=120.0, chunk=2)
+    bad_c, bad_d = invalid_invocations()
+    crecs = pmap(run_compile_case, [{"src": s} for s in srcs] + bad_c, limit=120.0, chunk=2)
+    drecs = pmap(run_decompile_case, documented_docs() + bad_d, limit=120.0, chunk=2)
     recs = crecs + drecs
     for r in recs:
         if r.get("_error") or r.get("_timeout"):
             raise common.MachineryError("harness failure: " + str(r)[-500:])
     path = os.path.join(common.scratch(), "c15.json")
-    fields = ("kind", "compileExit", "apiStatus", "docParsed", "hasSettings", "doc", "api", "apiKinds", "decompileExit")
+    fields = ("kind", "compileExit", "apiStatus", "inputOk", "docParsed", "hasSettings", "doc", "api", "apiKinds", "decompileExit")
 
     def validate(rs, tag):
         with open(path, "w") as fh:
@@ -198,7 +238,7 @@ def main() -> int:
             offs = [o["off"] for rt in r["api"] for o in rt]
             gaps = offs != list(range(1, len(offs) + 1))
         rep.violation("cli:" + common.tla_unquote(v[1]), {"kind": r["kind"], "src": r["src"][:1200], "compileExit": r["compileExit"], "apiStatus": r["apiStatus"],
-                                                          "decompileExit": r["decompileExit"], "stderr": (r.get("stderr2") or r.get("stderr") or "")[-300:],
+                                                          "decompileExit": r["decompileExit"], "invocation": r.get("why", ""), "stderr": (r.get("stderr2") or r.get("stderr") or "")[-300:],
                                                           "offset_gaps_or_disorder": gaps, "routine_types": [x.get("type") for x in r["doc"]] or None})
     beh = [(i, r["behaviour"]) for i, r in enumerate(recs) if r.get("behaviour")]
     for i, b in beh:
